@@ -78,7 +78,8 @@ Record state := mkState {
   next_txid : N;
   ckpt : N;                           (* checkpoint_txid *)
   epoch : N;                          (* manifest_epoch *)
-  wal : list (N * list wrec);         (* committed transactions in log order *)
+  wal : list (N * list wrec);         (* committed transactions in log order = what Wal::replay_committed returns: the records a failed
+                                         commit() left behind (BeginTx, ops, no CommitTx) are in the file but never part of this list *)
   vecs : list N                       (* ids present in the vector index *)
 }.
 Definition s0 : state := mkState [] [] [] [] [] [] [] [] 1 0 0 [] [].
